@@ -919,6 +919,22 @@ theorem bucklin_refusals {p : RProfile} (h1 : 1 ≤ (allRankedCandidates p).leng
   rw [evalBucklin_eq _ (decouple_ne_nil hp)] at h
   simp at h
 
+/-- … stated positively: with a candidate present both variants always answer -/
+theorem bucklin_answers {p : RProfile} (h1 : 1 ≤ (allRankedCandidates p).length) :
+    (∃ r, evalBucklinSplit p = .ok r) ∧ ∃ r, evalBucklin p = .ok r := by
+  constructor
+  · cases h : evalBucklinSplit p with
+    | ok r => exact ⟨r, rfl⟩
+    | error e => rcases bucklin_refusals h1 h with rfl | rfl <;>
+        exact absurd h (by
+          have hp : p ≠ [] := by rintro rfl; revert h1; decide
+          unfold evalBucklinSplit
+          rw [evalBucklin_eq _ (decouple_ne_nil hp)]
+          simp)
+  · cases h : evalBucklin p with
+    | ok r => exact ⟨r, rfl⟩
+    | error e => exact absurd (bucklin_whole_refusals_all h).1 (by rintro rfl; revert h1; decide)
+
 /-- `bucklin_shape` is FALSE of the current code: `a:1, b:1` — nobody exceeds the quota 1 — gives `[]` for one seat -/
 theorem bucklin_short_witness :
     1 ≤ (allRankedCandidates [([RankItem.one 0], (1 : Rat)), ([RankItem.one 1], 1)]).length ∧
